@@ -30,8 +30,11 @@ def select(cases, tier, seed):
     keep = []
     for c in cases:
         k = c["k"]
-        if k in ("multi", "skip", "value"):
-            continue            # C06 / C07 / C02
+        if k in ("multi", "skip"):
+            continue            # C06 / C07
+        if k == "value":        # literal classes (also judged by C02): which identifiers, strings and numbers are accepted is grammar
+            keep.append(c)
+            continue
         if k == "enum_item":
             # quick: every item at the oldest and the newest version (an item that is too new / deprecated shows at one of them),
             # a sample of the versions in between
